@@ -261,6 +261,22 @@ type Wd struct {
 	Amount uint64
 }
 
+// WdRaw is a withdrawal from a reward account given by its raw 28-byte
+// credential hash (no key of the harness hashes to it, so it cannot be signed).
+type WdRaw struct {
+	Hash   [28]byte
+	Script bool
+	Amount uint64
+}
+
+func rawRewardAddr(net uint8, h [28]byte, script bool) []byte {
+	hdr := byte(0xe0)
+	if script {
+		hdr = 0xf0
+	}
+	return append([]byte{hdr | net}, h[:]...)
+}
+
 type Prop struct { // info action proposal
 	Deposit uint64
 	RetKey  int
@@ -302,6 +318,8 @@ type TxSpec struct {
 	Style      *Styler
 	// WdrlScript: withdrawals from native-script reward accounts (script = sig of key)
 	WdrlScript []Wd
+	// WdrlRaw: withdrawals from accounts given by raw credential hashes
+	WdrlRaw []WdRaw
 }
 
 // Rdm is one redeemer: tag 0 spend, 1 mint, 2 cert, 3 reward.
@@ -425,13 +443,16 @@ func (tx *TxSpec) BodyNode() (*xcbor.Node, []byte) {
 		}
 		add(4, xcbor.A(cs...))
 	}
-	if len(tx.Wdrl)+len(tx.WdrlScript) > 0 {
+	if len(tx.Wdrl)+len(tx.WdrlScript)+len(tx.WdrlRaw) > 0 {
 		var ws []*xcbor.Node
 		for _, w := range tx.Wdrl {
 			ws = append(ws, xcbor.B(rewardAddr(tx.Net, w.Key)), xcbor.U(w.Amount))
 		}
 		for _, w := range tx.WdrlScript {
 			ws = append(ws, xcbor.B(scriptRewardAddr(tx.Net, w.Key)), xcbor.U(w.Amount))
+		}
+		for _, w := range tx.WdrlRaw {
+			ws = append(ws, xcbor.B(rawRewardAddr(tx.Net, w.Hash, w.Script)), xcbor.U(w.Amount))
 		}
 		add(5, xcbor.M(ws...))
 	}
